@@ -5,6 +5,7 @@
 pub mod models;
 pub mod util;
 pub mod rfc9180;
+pub mod sketch;
 #[cfg(kani)]
 pub mod fasthkdf;
 
@@ -12,6 +13,8 @@ pub mod fasthkdf;
 pub mod c01;
 #[cfg(kani)]
 pub mod c02;
+#[cfg(kani)]
+pub mod c02long;
 #[cfg(kani)]
 pub mod c03;
 #[cfg(kani)]
